@@ -481,8 +481,10 @@ class ParserFunctions:
         import math
 
         if expression_list:
+            # expanding the argument is not part of the guarded evaluation: the
+            # template recursion signal must reach the outermost call
+            expression = expression_list[0].strip()
             try:
-                expression = expression_list[0].strip()
                 if not expression:
                     return ""
                 val = expr.expr(expression)
@@ -502,8 +504,8 @@ class ParserFunctions:
         return "0"
 
     def IFEXPR(self, expression_list):
+        expression = expression_list[0].strip()
         try:
-            expression = expression_list[0].strip()
             evaluation_result = expr.expr(expression_list[0]) if expression else False
         except Exception as err:
             return self._error(err)
